@@ -18,6 +18,7 @@ and skipped. Nothing is executed; this is the same static analysis on a differen
   corpus.py calibrate [prefix..] run every variant (or those whose id starts with a prefix) against
                                  every property, print the table and (re)write corpus/expected.json
   corpus.py run <PROP> [--json]  run the variants expected.json lists for PROP
+  corpus.py try <patch> [PROP..] analyse the current tree with an arbitrary patch applied (overlay)
   corpus.py selftest             run all of expected.json; exit 1 on any miss/false alarm
 """
 import json, os, re, shutil, subprocess, sys, tempfile, glob
@@ -208,6 +209,20 @@ def main():
     if cmd == 'run':
         out = run_prop(sys.argv[2])
         print(json.dumps(out, indent=1))
+        return 0
+    if cmd == 'try':
+        # corpus.py try <patch.diff> [PROP...] : analyse the current tree with the patch applied (overlay)
+        e = {'id': 'try:' + sys.argv[2], 'kind': '?', 'patch': os.path.abspath(sys.argv[2])}
+        props = sys.argv[3:] or PROPS
+        rs = par([(e, [q]) for q in props])
+        for r, q in zip(rs, props):
+            if r['status'] != 'ran':
+                print(q, r['status'])
+                continue
+            v = r['results'][q]
+            if v['exit'] != 0:
+                print(q, 'exit=%d' % v['exit'], v.get('error', ''), v['keys'][:6])
+        print('tried', len(props), 'properties')
         return 0
     if cmd == 'selftest':
         bad = 0
